@@ -192,6 +192,16 @@ class _SLEB128Encoder(_StandaloneEncoder[int]):
         return leb128.i.decode_reader(io)
 
 
+def _read_exactly(io: BinaryIO, size: int) -> bytes:
+    """
+    Reads size bytes from the stream, raising EOFError if it ends early.
+    """
+    data = io.read(size)
+    if len(data) != size:
+        raise EOFError("unexpected end of data")
+    return data
+
+
 class _IntEncoder(_StandaloneEncoder[int]):
     def __init__(self, byte_size: int, signed: bool):
         self.byte_size = byte_size
@@ -205,7 +215,9 @@ class _IntEncoder(_StandaloneEncoder[int]):
     ) -> Tuple[int, int]:
         return (
             int.from_bytes(
-                io.read(self.byte_size), byteorder, signed=self.signed
+                _read_exactly(io, self.byte_size),
+                byteorder,
+                signed=self.signed,
             ),
             self.byte_size,
         )
@@ -238,7 +250,9 @@ class _UIntPtrEncoder(_StandaloneEncoder[int]):
         self, io: BinaryIO, byteorder: ByteOrder, ptr_size: int
     ) -> Tuple[int, int]:
         return (
-            int.from_bytes(io.read(ptr_size), byteorder, signed=False),
+            int.from_bytes(
+                _read_exactly(io, ptr_size), byteorder, signed=False
+            ),
             ptr_size,
         )
 
